@@ -283,6 +283,7 @@ FAM_Q = ['succeed-all', 'fail-any', 'finish-all', 'start-any']
 XTRIGS = ['@x', '@wall-clock', '@x+1', '@a%b']
 WS = ['', '', ' ', ' ', '  ', '\t', ' \t ']
 COMMENTS = ['', ' c', ' a => b', '# x', ' foo & bar | (baz)', '!@$%^*', ' "quoted" \'text\'', ' => ', ' \\']
+_POOL = {'comments': COMMENTS}
 
 MUT_CHARS = 'ab1:?[]!@&|()=> #\t-+%^._$,/*~"\\'
 
@@ -292,7 +293,7 @@ def rand_ws(rng):
 
 
 def rand_blank(rng):
-    return [rng.choice(['', ' ', '\t', '   ']), rng.choice(COMMENTS) if rng.random() < 0.6 else None]
+    return [rng.choice(['', ' ', '\t', '   ']), rng.choice(_POOL['comments']) if rng.random() < 0.6 else None]
 
 
 def is_op(t):
@@ -305,7 +306,7 @@ def layout(rng, toks, plain=False):
     cur = []
     for k, t in enumerate(toks):
         if k and not plain and (is_op(toks[k - 1]) != is_op(t)) and rng.random() < 0.18:
-            segs.append({'items': cur, 'tw': rand_ws(rng), 'c': rng.choice(COMMENTS) if rng.random() < 0.4 else None,
+            segs.append({'items': cur, 'tw': rand_ws(rng), 'c': rng.choice(_POOL['comments']) if rng.random() < 0.4 else None,
                          'blank': [rand_blank(rng) for _ in range(rng.choice([0, 0, 0, 1, 2]))]})
             cur = []
         if plain:
@@ -316,7 +317,7 @@ def layout(rng, toks, plain=False):
     if plain:
         segs.append({'items': cur, 'tw': '', 'c': None, 'blank': []})
     else:
-        segs.append({'items': cur, 'tw': rand_ws(rng), 'c': rng.choice(COMMENTS) if rng.random() < 0.3 else None,
+        segs.append({'items': cur, 'tw': rand_ws(rng), 'c': rng.choice(_POOL['comments']) if rng.random() < 0.3 else None,
                      'blank': [rand_blank(rng) for _ in range(rng.choice([0, 0, 0, 1, 2]))]})
     return segs
 
@@ -358,7 +359,9 @@ def make_form(rng, lines, how):
     return form
 
 
-def ast_case(rng, lines, nforms):
+def ast_case(rng, lines, nforms, cfg=False):
+    # (a backslash at the end of a line is a continuation for parsec: not used when the text goes through a file)
+    _POOL['comments'] = [c for c in COMMENTS if '\\' not in c] if cfg else COMMENTS
     forms = [make_form(rng, lines, 'plain')]
     kinds = ['pairs', 'mixed', 'mixed', 'whole', 'mixed', 'pairs', 'mixed', 'whole', 'mixed']
     for k in range(nforms - 1):
@@ -370,7 +373,11 @@ def ast_case(rng, lines, nforms):
             forms.append(f)
         else:
             forms.append(make_form(rng, lines, kind))
-    return {'kind': 'ast', 'lines': lines, 'forms': forms, 'texts': [form_text(f) for f in forms]}
+    _POOL['comments'] = COMMENTS
+    out = {'kind': 'ast', 'lines': lines, 'forms': forms, 'texts': [form_text(f) for f in forms]}
+    if cfg:
+        out['cfg'] = True
+    return out
 
 
 def raw_case(text, how='given'):
@@ -460,6 +467,34 @@ def plain_lines(rng):
     return lines
 
 
+def config_lines(rng):
+    """graphs WorkflowConfig is likely to accept: no self-edges, integer offsets on heads only, built-in
+    qualifiers, one optionality style"""
+    names = rng.sample(['a', 'b', 'c', 'd', 'x', 'y', 'foo', 'bar', 'a-x', 'm1'], rng.randint(4, 8))
+    style = rng.choice(['req', 'req', 'allopt'])
+    quals = ['', '', 'succeed', 'started', 'submit'] if style == 'req' else ['', 'fail', 'succeeded', 'start', 'finish']
+
+    def nd(name, head):
+        q = rng.choice(quals)
+        return {'name': name, 'off': rng.choice(['[-P1]', '[+P2]']) if head and rng.random() < 0.2 else '',
+                'q': q, 'opt': style == 'allopt' and q != 'finish', 'sui': False}
+    lines = []
+    for _ in range(rng.choice([1, 2, 2, 3])):
+        k = rng.choice([2, 3, 3, 4])
+        order = rng.sample(names, min(len(names), k + 2))
+        h = order[:rng.choice([1, 1, 2, 3])]
+        rest_names = [x for x in order if x not in h]
+        head = {'n': nd(h[0], True)}
+        for x in h[1:]:
+            head = (OR if rng.random() < 0.5 else AND)(head, {'n': nd(x, True)})
+        if 'or' in head and rng.random() < 0.5:
+            head = PAR(head)
+        rest = [[nd(x, False)] for x in rest_names[:k - 1]]
+        if rest:
+            lines.append({'head': head, 'rest': rest})
+    return lines
+
+
 # mutations (malformed renderings) -----------------------------------------------------
 
 def mutate(rng, text):
@@ -526,6 +561,66 @@ def mutate(rng, text):
     return text[:pos] + rng.choice(MUT_CHARS) + text[pos:], 'ins'
 
 
+def _impl_index(k):
+    return PROP.impl(_RT['inputs'][k])
+
+
+FLOW_TMPL = """[scheduler]
+    allow implicit tasks = True
+[scheduling]
+    cycling mode = integer
+    initial cycle point = 1
+    [[graph]]
+        P1 = \"\"\"
+%s
+        \"\"\"
+"""
+
+
+def _canon_exp(e):
+    if isinstance(e, list):
+        return [_canon_exp(x) for x in e]
+    return str(e)
+
+
+def config_digest(text):
+    """second stage: the graph through WorkflowConfig; digest of TaskDef dependencies, outputs and graph
+    edges (or the exception type).  None = not comparable (a backslash would be a parsec continuation)."""
+    import hashlib
+    import json
+    import os
+    import tempfile
+    if '\\' in text or '"""' in text:
+        return None
+    d = os.path.join(_RT.get('tmp') or tempfile.gettempdir(), 'w%d' % os.getpid())
+    os.makedirs(d, exist_ok=True)
+    f = os.path.join(d, 'flow.cylc')
+    with open(f, 'w') as fh:
+        fh.write(FLOW_TMPL % text)
+    try:
+        c = _RT['WorkflowConfig']('c14', f, _RT['RunOptions']())
+    except Exception as exc:
+        return 'err:' + type(exc).__name__
+    tasks = {}
+    for n, td in c.taskdefs.items():
+        deps = []
+        for seq, dl in td.dependencies.items():
+            for dep in dl:
+                deps.append([str(seq), json.dumps(_canon_exp(dep._exp)), bool(dep.suicide)])
+        tasks[n] = [sorted(deps), sorted([k, v[1]] for k, v in td.outputs.items())]
+    # real edges as they are; the pseudo-edges (node, None) that mark a node as present only as the set of
+    # nodes that occur in no real edge (a chain head gets one, the same node inside a chain does not)
+    import re
+    real = sorted([str(seq)] + [str(x) for x in e] for seq, es in c.edges.items() for e in es if e[1] is not None)
+    used = set()
+    for e in real:
+        used.add(re.match(r'[\w\-+%@]+', e[1]).group(0))
+        used.add(e[2])
+    lone = sorted({str(e[0]) for es in c.edges.values() for e in es if e[1] is None} - used)
+    blob = json.dumps({'tasks': tasks, 'edges': real, 'lone': lone}, sort_keys=True)
+    return hashlib.sha1(blob.encode()).hexdigest()[:16]
+
+
 class C14(Prop):
     id = 'C14'
     props_modules = ['CylcModel.Props.C14']
@@ -580,7 +675,7 @@ class C14(Prop):
         'the regexes of graph_parser.py are ported as hand matchers (character classes and look-around sets '
         'tabulated from the compiled regexes on every run); Python re / str semantics for them',
         'the judge reads recorded expression strings back as boolean expressions (& binds tighter than |) and '
-        'compares meanings on all valuations up to 10 atoms (sampled beyond)',
+        'compares meanings on all valuations up to 8 atoms (sampled beyond)',
         'the reference reader of the judge (Drv/C14.lean, Spec.*): its grammar is the documented node / expression '
         'format; white space inside a node other than between two names gets no verdict on acceptance',
     ]
@@ -588,8 +683,9 @@ class C14(Prop):
         '<parameter> expansion and <workflow::task> markers (texts containing "<" are not generated), '
         'REC_NODE_OUT_OF_RANGE (texts containing "-3276"), families (C15), expire_triggers mode, Cylc-7 '
         'back-compat mode, task_output_opt shared between graph sections, a task literally named None',
-        'second stage through WorkflowConfig (TaskDef dependencies / graph edges): GraphParser.triggers and '
-        'task_output_opt are the observation point',
+        'second stage through WorkflowConfig: not modelled; every 6th AST case is also loaded through '
+        'WorkflowConfig in every form and the judge requires forms with equal parser tables to give equal TaskDef '
+        'dependencies / outputs / graph edges (digest comparison)',
         'structure model: right-hand elements with parentheses and lone conditional lines are outside its domain '
         '(covered by the text model only)',
     ]
@@ -611,9 +707,11 @@ class C14(Prop):
     def setup(self):
         import logging
         import cylc.flow.graph_parser as gp
+        from cylc.flow.config import WorkflowConfig
+        from cylc.flow.scheduler_cli import RunOptions
         gp.sorted = _sorted_total
         logging.getLogger('cylc').setLevel(logging.CRITICAL + 1)
-        _RT['gp'] = gp
+        _RT.update(gp=gp, WorkflowConfig=WorkflowConfig, RunOptions=RunOptions)
 
     def translate(self):
         return translate_tables()
@@ -639,12 +737,43 @@ class C14(Prop):
             'opt': sorted([n, o, bool(a), bool(b), bool(c)] for (n, o), (a, b, c) in p.task_output_opt.items()),
         }
 
+    def impl_batch(self, inputs):
+        # inputs are large (texts + layouts): workers get indices into a list inherited through fork
+        import multiprocessing as mp
+        import shutil
+        import tempfile
+        _RT['tmp'] = tempfile.mkdtemp(prefix='C14-run-', dir='/tmp')
+        _RT['inputs'] = inputs
+        try:
+            if len(inputs) < 500:
+                return [self.impl(i) for i in inputs]
+            with mp.get_context('fork').Pool(self.workers) as pool:
+                return pool.map(_impl_index, range(len(inputs)), chunksize=max(1, len(inputs) // (self.workers * 16)))
+        finally:
+            _RT['inputs'] = None
+            shutil.rmtree(_RT['tmp'], ignore_errors=True)
+            _RT['tmp'] = None
+
     def impl(self, inp):
         if inp['kind'] == 'raw':
             return {'r': [self.run_text(inp['text'])]}
         rs = [self.run_text(t) for t in inp['texts']]
         s = {'err': 'rejected'} if 'err' in rs[0] else rs[0]
-        return {'r': rs, 's': s}
+        out = {'r': rs, 's': s}
+        if inp.get('cfg'):
+            out['c'] = [config_digest(t) for t in inp['texts']]
+        return out
+
+    # the WorkflowConfig digests are observations the model does not produce: they travel in the driver's case
+    def driver_input(self, inp, raw):
+        if 'c' in raw:
+            d = dict(inp)
+            d['cfgobs'] = raw['c']
+            return d
+        return inp
+
+    def driver_obs(self, inp, raw):
+        return {k: v for k, v in raw.items() if k != 'c'}
 
     # -- cases ----------------------------------------------------------------------
     def corpus(self):
@@ -666,15 +795,18 @@ class C14(Prop):
         L = [{'head': {'n': node('a')['n']}, 'rest': [[node('b')['n']]]},
              {'head': {'n': node('x')['n']}, 'rest': [[node('b')['n']], [node('c')['n']]]},
              {'head': {'n': node('b', q='fail', opt=True)['n']}, 'rest': [[node('d')['n']]]}]
-        out.append(ast_case(rng, L, 4))
+        out.append(ast_case(rng, L, 4, cfg=True))
         return out
 
     def gen(self, tier, rng):
-        n_ast, nforms, n_raw = {'quick': (900, 5, 2500), 'thorough': (30000, 8, 120000)}.get(tier, (60000, 8, 250000))
+        n_ast, nforms, n_raw = {'quick': (900, 5, 2500), 'thorough': (10000, 8, 60000)}.get(tier, (30000, 8, 150000))
         bases = []
         for k in range(n_ast):
             lines = plain_lines(rng) if k % 4 == 0 else rand_lines(rng)
-            c = ast_case(rng, lines, nforms)
+            if k % 6 == 1:
+                c = ast_case(rng, config_lines(rng), nforms, cfg=True)
+            else:
+                c = ast_case(rng, lines, nforms)
             if len(bases) < 4000:
                 bases.append(rng.choice(c['texts']))
             yield c
